@@ -200,18 +200,44 @@ class Gen:
         return code
 
 
+def collect_tags(x, acc):
+    """tags of events a program can emit (emit instructions, event nodes, chain sinks)"""
+    if isinstance(x, dict):
+        if x.get("op") == "emit" or x.get("k") == "event":
+            acc.append(x["tag"])
+        if "sink" in x:
+            acc.append(x["sink"]["tag"])
+        for v in x.values():
+            collect_tags(v, acc)
+    elif isinstance(x, list):
+        for v in x:
+            collect_tags(v, acc)
+
+
 def make_case(rng, host, depth, family, nsteps, name, budget=8):
     ids = Ids()
     g = Gen(rng, ids, max_depth=depth, family=family, script_budget=budget)
-    progs = [g.cmd(0)]
     direct = host in ("direct", "stream")
+    progs = [g.cmd(0)]
+    follow = {}
+    if not direct:
+        for _ in range(rng.choice([0, 1, 2])):
+            progs.append(g.cmd(0))
+        tags = []
+        collect_tags(progs, tags)
+        # follow-up programs: small, and their own events have no follow-ups (acyclic)
+        g2 = Gen(rng, ids, max_depth=1, family="cmd", script_budget=3)
+        g2.tagc = 1000
+        for t in rng.sample(tags, min(len(tags), rng.choice([0, 1, 2, 3]))):
+            progs.append(g2.cmd(1))
+            follow[str(t)] = len(progs) - 1
     pol = {"kind": "random", "seed": rng.randrange(1 << 30), "max": nsteps,
            "p_drop": rng.choice([0.0, 0.15, 0.3]) if host in ("direct", "stream", "core") else 0.0,
            "p_late": rng.choice([0.0, 0.1, 0.3]),
            "p_abort": rng.choice([0.0, 0.0, 0.1]) if host != "stream" else 0.0,
            "p_noop": 0.0 if direct else 0.15,
-           "p_run": 0.0}
-    return {"name": name, "host": host, "progs": progs, "follow": {},
+           "p_run": 0.0 if direct else 0.1}
+    return {"name": name, "host": host, "progs": progs, "follow": follow,
             "steps": [{"a": "run", "p": 0}], "policy": pol}
 
 
